@@ -25,11 +25,22 @@ func relayCheck(t *testing.T, id string, prof func() *Profile, rule string, floo
 	nHist, nOps := run.Pick(10, 100), run.Pick(700, 2000)
 	for h := 0; h < nHist; h++ {
 		var rm *RelayMon
+		var km *KeyMon
 		s := History(t, run, prof(), h, nOps, func(hid string) []Monitor {
 			rm = NewRelayMon(run, hid, id)
-			return []Monitor{rm, &EventCounter{Run: run}}
+			mons := []Monitor{rm, &EventCounter{Run: run}}
+			if id == "C17" {
+				km = &KeyMon{Run: run, Hist: hid}
+				mons = append(mons, km)
+			}
+			return mons
 		})
 		rm.Report()
+		if km != nil {
+			run.Count("key_resolution_checks", km.Checks)
+			run.Count("keys_resolved_to_a_live_project", km.Resolved)
+			run.Count("developer_keys_that_are_also_admin_keys_seen", km.DualKind)
+		}
 		if h == 0 {
 			var rel []string
 			for _, l := range s.Log {
@@ -88,13 +99,16 @@ func TestC04(t *testing.T) {
 
 func TestC17(t *testing.T) {
 	relayCheck(t, "C17", profRelay,
-		"relay-heavy histories with project creation/deletion, developer keys added/removed/re-added across projects and epochs, policy changes that create extra project versions inside a monthly snapshot; after every accepted relay tx the UsedCu delta of every version of the resolved project's snapshot equals the sum of accepted CuSum, other snapshots are untouched, the subscription's MonthCuLeft drops by exactly that (saturating); key ownership is checked by KeyMon; distinct non-trivial = distinct accepted session keys",
+		"relay-heavy histories with project creation/deletion, developer keys added/removed/re-added across projects and epochs, policy changes that create extra project versions inside a monthly snapshot; after every accepted relay tx the UsedCu delta of every version of the resolved project's snapshot equals the sum of accepted CuSum, other snapshots are untouched, the subscription's MonthCuLeft drops by exactly that (saturating); key ownership (KeyMon): after every key / project tx and every block, at the current block and at the next epoch start, every key the developer registry resolves must resolve to an existing project that lists it as a developer key, no developer key is listed by two live projects, and a listed developer key resolves to the project listing it; distinct non-trivial = distinct accepted session keys",
 		func(n int) int { return 20 * n },
 		func(run *ev.Run) {
 			run.Require("charges visible in several versions of one snapshot", run.Counter("charges_seen_in_several_project_versions") > 0)
 			run.Require("keys added", run.Counter("ok:addkeys") > 0)
 			run.Require("keys deleted", run.Counter("ok:delkeys") > 0)
 			run.Require("projects added", run.Counter("ok:addproject") > 0)
+			run.Require("projects deleted", run.Counter("ok:delproject") > 0)
+			run.Require("keys resolved to live projects", run.Counter("keys_resolved_to_a_live_project") > 0)
+			run.Require("keys holding both the admin and the developer role", run.Counter("developer_keys_that_are_also_admin_keys_seen") > 0)
 		})
 }
 
